@@ -126,6 +126,7 @@ func Load(c Config) (*Program, error) {
 	if !c.RawNames {
 		p.Renamed, p.CanonNotes = p.Canonicalise()
 		p.CanonComparisons()
+		p.CanonIfElse()
 	}
 	return p, nil
 }
